@@ -1,9 +1,227 @@
-(** C10 — placeholder while the check is being built; replaced below. *)
-From Verif Require Import Lib.Base Repro.Doc Repro.Struct.
+(** C10 — structural edits of a preserved document only move or insert whole elements.
+    Only statements; every proof is [exact <lemma>] or a short composition.
 
-Theorem C10_reappend_rejected :
-  forall d j, fst (s_step d (SReappend j)) <> None.
+    Model:  Repro/Struct.v (order_*/sort_fields of both paragraph classes, _nodes_being_relocated,
+            _regenerate_relative_kvapir_order, Deb822FileElement.append/insert) on Repro/Doc.v
+            (set_kvpair_element / remove_kvpair_element / _resolve_to_single_node, p[k] = v).
+    Spec:   Repro/StructSpec.v (documents as lists of paragraphs as lists of fields; keys as masks;
+            [s_cands]: the outcomes the property permits for an operation).
+    Proofs: Repro/StructProofs*.v, Repro/StructSortProofs.v.
+
+    Notation used in the comments: [abs d] is the list view of a model document (every paragraph
+    replaced by the list of its fields in _kvpair_order order); [dump d = sdump (abs d)]. *)
+From Coq Require Import String Permutation Sorted.
+From Verif Require Import Lib.Base Lib.Dec Lib.PyStr Gen.PyChars
+  Repro.Doc Repro.StructSort Repro.Struct Repro.StructSpec Repro.StructLemmas Repro.StructSortProofs
+  Repro.StructProofsPN Repro.StructProofsPD1 Repro.StructProofsPD2 Repro.StructProofsPD3
+  Repro.StructProofsPD4 Repro.StructProofs.
+
+(** * 1. byname_consistent
+
+    [wf_doc] (a boolean) says of every paragraph: no-duplicates class — the names are distinct
+    case-insensitively; duplicate-fields class — node identities are distinct and below the
+    allocation counter, the keys of _kvpair_elements are distinct, every entry is non-empty and
+    equals the identities of the nodes of _kvpair_order carrying that name IN THAT ORDER, and
+    every node's name has an entry.  It holds after every history of operations (each addressing
+    an existing paragraph; insert positions non-negative), whatever they return. *)
+Theorem C10_byname_consistent :
+  forall d ops,
+    wf_doc d = true -> ops_in_range d ops = true ->
+    wf_doc (s_run d ops) = true.
+Proof. exact run_wf_bool. Qed.
+
+(** what the invariant says: byname n = filter (has_name n) order (as node identities; a name
+    without fields has no entry) *)
+Theorem C10_byname_is_filtered_order :
+  forall d n,
+    wf_dparab d = true ->
+    assoc_get (lower n) (d_byname d)
+    = nonempty_opt (map fst (filter (fun nf => has_name n (snd nf)) (d_order d))).
+Proof. exact byname_is_filtered_order. Qed.
+
+(** hence get_kvpair_element((name, i)) — in either class, in any reachable state — returns the
+    i-th field of that name in document order ([position_ok]: for i >= 0 exactly that element or
+    an exception when there is none; i < 0 counts from the end or is refused) *)
+Theorem C10_name_index_is_ith_occurrence :
+  forall d ops p n i,
+    wf_doc d = true -> ops_in_range d ops = true ->
+    In (Para p) (s_run d ops) ->
+    position_ok (para_fields p) n i (answer (p_position p n i)) = true.
 Proof.
-  intros d j. cbn. destruct (nth_error (paras d) j); cbn; discriminate.
+  intros d ops p n i Hwf Hr Hin. apply position_is_ith.
+  apply wf_doc_Wf in Hwf. exact (run_wf ops d Hwf Hr p Hin).
 Qed.
-Print Assumptions C10_reappend_rejected.
+
+(** the parser's own choice of paragraph class starts in the invariant *)
+Theorem C10_parsed_paragraph_consistent :
+  forall fs, wf_parab (from_kvpairs fs) = true /\ para_fields (from_kvpairs fs) = fs.
+Proof.
+  intros fs. destruct (from_kvpairs_wf fs) as [H1 H2]. split; [now apply wf_parab_Wf|exact H2].
+Qed.
+
+(** * 2. structural_refines_list
+
+    One operation: when the model accepts it, the list view of the result is one of the outcomes
+    the list reference permits for that operation ([s_cands], flag [false]); when the model refuses
+    an order_*/sort/delete/re-append, refusal is one of the permitted outcomes (flag [true]) and
+    the list view is the permitted one; p[k] = v, append and insert can also fail while the value
+    is turned into a field (C05's subject), then the document is untouched.  [op_rel] pairs the
+    operation with the reference's: the same keys; for p[k] = v the field that was built, for
+    append/insert the paragraph that was built. *)
+Theorem C10_step_refines_list :
+  forall d o,
+    wf_doc d = true -> op_in_range d o = true ->
+    match fst (s_step d o) with
+    | None =>
+        exists so cs, op_rel o so /\ s_cands (abs d) so = Some cs
+                      /\ In (false, abs (snd (s_step d o))) cs
+    | Some _ =>
+        if structural o
+        then exists so cs, op_rel o so /\ s_cands (abs d) so = Some cs
+                           /\ In (true, abs (snd (s_step d o))) cs
+        else snd (s_step d o) = d
+    end.
+Proof.
+  intros d o Hwf Hr. apply wf_doc_Wf in Hwf. exact (proj2 (step_refines d o Hwf Hr)).
+Qed.
+
+(** Any history: the dump is the concatenation of the field texts of a list state that the
+    reference reaches from the initial list by permitted outcomes of the same operations
+    ([sreach]); elements only move, disappear or appear as wholes because the reference's
+    operations are [pick]/[unpick]/[set_mask] on whole list elements. *)
+Theorem C10_structural_refines_list :
+  forall d ops,
+    wf_doc d = true -> ops_in_range d ops = true ->
+    dump (s_run d ops) = sdump (abs (s_run d ops))
+    /\ sreach (abs d) ops (abs (s_run d ops)).
+Proof.
+  intros d ops Hwf Hr. split; [apply dump_abs|]. apply wf_doc_Wf in Hwf. now apply run_refines.
+Qed.
+
+(** what the reference's moves do to a list: first/last/before/after/sort are permutations of the
+    fields (as whole elements), *)
+Theorem C10_moves_permute :
+  forall m r after (fs : list field),
+    length m = length fs -> length r = length fs ->
+    Permutation (mv_first m fs) fs /\ Permutation (mv_last m fs) fs
+    /\ Permutation (mv_rel after m r fs) fs
+    /\ Permutation (sort_by (fun f => lower (f_name f)) fs) fs.
+Proof. exact moves_permute. Qed.
+
+(** ... and the moved fields ([pick]) and the others ([unpick]) are subsequences: their relative
+    order is kept by construction. *)
+
+(** sort_fields: a stable sort by lower-cased name *)
+Theorem C10_sort_sorted :
+  forall fs : list field,
+    StronglySorted (fun x y => str_leb (lower (f_name x)) (lower (f_name y)) = true)
+                   (sort_by (fun f => lower (f_name f)) fs).
+Proof. exact (sort_by_sorted (fun f => lower (f_name f))). Qed.
+
+Theorem C10_sort_stable :
+  forall k (fs : list field),
+    filter (fun f => str_eqb (lower (f_name f)) k) (sort_by (fun f => lower (f_name f)) fs)
+    = filter (fun f => str_eqb (lower (f_name f)) k) fs.
+Proof. exact (sort_by_stable (fun f => lower (f_name f))). Qed.
+
+(** * 3. reorder_errors_unchanged
+
+    Whatever exception an operation raises, the list view afterwards is the one before, or differs
+    from it only in that the last field of one paragraph was given its missing final newline
+    (order_* call _ensure_final_newline before they look the reference field up). *)
+Theorem C10_reorder_errors_unchanged :
+  forall d o e,
+    wf_doc d = true -> op_in_range d o = true -> fst (s_step d o) = Some e ->
+    same_up_to_newline (abs d) (abs (snd (s_step d o))).
+Proof.
+  intros d o e Hwf Hr He. apply wf_doc_Wf in Hwf. exact (errors_unchanged d o e Hwf Hr He).
+Qed.
+
+(** * 4. insert_append_no_merge (partial)
+
+    Full statement (DESIGN §4): abs (parse (dump (append f p))) has one more paragraph, equal to p;
+    the same for insert i.  That needs the printer/parser theorem of C01/C05
+    (parse (dump d) shows the paragraphs of d for well-separated d), which is not available here.
+    Proved: the new paragraph is an item of its own, placed where the reference permits (at the end
+    after 0-2 newline tokens with the missing final newline of the document supplied / between
+    paragraph i-1 and paragraph i with a newline token on either side), nothing else changes.  That
+    the separators chosen suffice for a fresh parse is checked on every generated case by [holds]
+    (fresh parse = [sread]), not proved. *)
+Theorem C10_insert_append_no_merge_partial :
+  forall d p i,
+    wf_doc d = true -> wf_parab p = true ->
+    In (false, abs (f_append d p)) (append_cands (abs d) (para_fields p))
+    /\ ((0 <=? i)%Z = true ->
+        exists cs, s_cands (abs d) (DInsert i (para_fields p)) = Some cs
+                   /\ In (false, abs (f_insert d i p)) cs).
+Proof.
+  intros d p i Hwf Hp. apply wf_doc_Wf in Hwf. apply wf_parab_Wf in Hp. split.
+  - exact (proj1 (f_append_refines d p Hwf Hp)).
+  - intros Hi. exact (proj1 (f_insert_refines d i p Hwf Hp Hi)).
+Qed.
+
+(** * Non-vacuity
+
+    A document without final newline: a free comment, a duplicate-fields paragraph (X, A, a — the
+    parser's own class choice and index), a blank line, a no-duplicates paragraph whose last field is
+    unterminated.  The history moves both occurrences of A first, moves (A, 0) last, refers to a
+    field relative to itself (ValueError), moves (a, 1) before X, sorts, replaces and deletes indexed
+    occurrences, moves the unterminated last field (the newline is supplied), appends and inserts
+    paragraphs, and uses an index that is out of range (KeyError).  All hypotheses of the theorems above hold for it, and
+    the dump is the expected one. *)
+Local Open Scope string_scope.
+Example C10_nonvacuous :
+  let s (x : String.string) := Lib.Dec.dec x in
+  let F c n r := mkF (s c) (s n) (s r) in
+  let d := [Other OComment (s "# head" ++ [LF])%list; Other OWs [LF];
+            Para (from_kvpairs [F "" "X" ": 1
+"; F "# c
+" "A" ": 2
+"; F "" "a" ": 3
+ cont
+"]);
+            Other OWs [LF];
+            Para (from_kvpairs [F "" "B" ": b
+"; F "" "C" ": c"])] in
+  let ops := [SFirst 0 (KStr (s "a"));
+              SLast 0 (KIdx (s "A") 0);
+              SAfter 0 (KStr (s "A")) (KIdx (s "a") 0);
+              SBefore 0 (KIdx (s "a") 1) (KStr (s "x"));
+              SSort 0;
+              SSet 0 (KIdx (s "A") 1) (s "new");
+              SFirst 1 (KStr (s "C"));
+              SAppend [(s "N", s "x")];
+              SInsert 1 [(s "M", s "y")];
+              SDel 0 (KIdx (s "a") 0);
+              SLast 0 (KIdx (s "A") 5)] in
+  wf_doc d = true
+  /\ ops_in_range d ops = true
+  /\ map (fun o => fst (s_step d o)) [SAfter 0 (KStr (s "A")) (KIdx (s "a") 0); SLast 0 (KIdx (s "A") 5)]
+     = [Some ValueError; Some KeyError]
+  /\ dump (s_run d ops)
+     = s "# head
+
+# c
+A: new
+X: 1
+
+M: y
+
+C: c
+B: b
+
+N: x
+".
+Proof. vm_compute. repeat split. Qed.
+
+Print Assumptions C10_byname_consistent.
+Print Assumptions C10_byname_is_filtered_order.
+Print Assumptions C10_name_index_is_ith_occurrence.
+Print Assumptions C10_parsed_paragraph_consistent.
+Print Assumptions C10_step_refines_list.
+Print Assumptions C10_structural_refines_list.
+Print Assumptions C10_moves_permute.
+Print Assumptions C10_sort_sorted.
+Print Assumptions C10_sort_stable.
+Print Assumptions C10_reorder_errors_unchanged.
+Print Assumptions C10_insert_append_no_merge_partial.
